@@ -65,15 +65,29 @@ def log(*a: Any) -> None:
 # ---------------------------------------------------------------- lake / lean
 
 class lake_lock:
+    """exclusive lock on the shared lean/ tree (re-entrant inside one process): the translators write
+    Gen/*.lean and `lake build` reads them, so a check holds it from its first translator to the end
+    of its axiom audit - concurrent checks (possibly of a different tree via DASHLIVE_REPO) cannot
+    build each other's generated files."""
+    _depth = 0
+    _f = None
+
     def __enter__(self):
-        LOCK.parent.mkdir(exist_ok=True)
-        self.f = open(LOCK, "w")
-        fcntl.flock(self.f, fcntl.LOCK_EX)
+        cls = lake_lock
+        if cls._depth == 0:
+            LOCK.parent.mkdir(exist_ok=True)
+            cls._f = open(LOCK, "w")
+            fcntl.flock(cls._f, fcntl.LOCK_EX)
+        cls._depth += 1
         return self
 
     def __exit__(self, *a):
-        fcntl.flock(self.f, fcntl.LOCK_UN)
-        self.f.close()
+        cls = lake_lock
+        cls._depth -= 1
+        if cls._depth == 0:
+            fcntl.flock(cls._f, fcntl.LOCK_UN)
+            cls._f.close()
+            cls._f = None
 
 
 _DRIVER_SNAPSHOT: Optional[Path] = None
